@@ -4,6 +4,9 @@
 From Curies.model Require Import Str PyData Trie Conv Query Val Answer Spec CheckQ Mapping.
 From Curies.proofs Require Import StrFacts IndexFacts QueryFacts LawFacts MappingFacts.
 From Curies.proofs Require Import PModelS.
+From Coq Require Import Permutation.
+From Curies.model Require Import Optimize.
+From Curies.proofs Require Import OptimizeFacts.
 
 (* what the graph yields for a bound URI u over a configured predicate: the valid renderings of u's record *)
 Theorem C18_answers : forall inv d rs c, mk_conv true d rs = Val c -> forall u, equivalents inv c u = spec_equivalents inv rs u.
@@ -51,3 +54,34 @@ Print Assumptions C18_relative.
 Theorem C18_P_model : forall k : scase, valid_s k = true -> P_C18 k (model_sobs k) = true.
 Proof. exact P_C18_model. Qed.
 Print Assumptions C18_P_model.
+
+(* ---- rdflib_custom._optimize_node (model/Optimize.v): the rewriting that makes "VALUES after the WHERE block" work ---- *)
+(* the model recurses first and swaps afterwards (structural recursion); this is the source's order: swap, then recurse *)
+Theorem C18_opt_code_order : forall n fs, opt (ANode n fs) = ANode n (opt_fields (swap_if n fs)).
+Proof. exact opt_code_order. Qed.
+Print Assumptions C18_opt_code_order.
+(* after the rewriting no Join anywhere in the tree has a VALUES clause as its second operand only *)
+Theorem C18_opt_values_first : forall a, values_first (opt a) = true.
+Proof. exact opt_values_first. Qed.
+Print Assumptions C18_opt_values_first.
+(* a VALUES clause written after the WHERE block and one written inside it are the same tree after the rewriting *)
+Theorem C18_opt_values_placement : forall X V rest, str_eqb (aname V) multiset_name = true -> str_eqb (aname X) multiset_name = false ->
+  opt (ANode join_name (FNodeF k_p1 X (FNodeF k_p2 V rest))) = opt (ANode join_name (FNodeF k_p1 V (FNodeF k_p2 X rest))).
+Proof. exact values_placement. Qed.
+Print Assumptions C18_opt_values_placement.
+(* nothing else happens: same node names and opaque contents (as multisets), same keys at every node, and a second pass changes nothing *)
+Theorem C18_opt_same_content : forall a, Permutation (leaves (opt a)) (leaves a).
+Proof. exact opt_same_content. Qed.
+Print Assumptions C18_opt_same_content.
+Theorem C18_opt_same_shape : forall n fs, exists fs', opt (ANode n fs) = ANode n fs' /\ fkeys fs' = fkeys fs.
+Proof. exact opt_same_shape. Qed.
+Print Assumptions C18_opt_same_shape.
+Theorem C18_opt_idempotent : forall a, opt (opt a) = opt a.
+Proof. exact opt_idempotent. Qed.
+Print Assumptions C18_opt_idempotent.
+Example C18_opt_nonvacuous :
+  let bgp := ANode [66;71;80]%N (FLeafF [116]%N [49]%N FNil) in
+  let vals := ANode multiset_name (FLeafF [112]%N [50]%N FNil) in
+  let after_where := ANode join_name (FNodeF k_p1 bgp (FNodeF k_p2 vals FNil)) in
+  values_first after_where = false /\ opt after_where = ANode join_name (FNodeF k_p1 vals (FNodeF k_p2 bgp FNil)).
+Proof. vm_compute. auto. Qed.
